@@ -259,6 +259,7 @@ class SE:
             h['okeys'] = Store(h['okeys'], r, K(self.ctx.Ref, False))
             return
         if name == '_data':
+            if v[0] == 'memo' and st.heap['memo_k:%d' % v[1]].eq(K(self.ctx.Ref, False)): v = ('dict_empty',)
             if v[0] != 'dict_empty': raise Unsupported('store to _data')
             h['dhas'] = Store(h['dhas'], r, K(self.ctx.Key, False))
             return
@@ -361,7 +362,12 @@ class SE:
             return self.evs(st, e.elts, lambda s, vs: cont(s, ('tuple', vs)))
         if isinstance(e, ast.Dict) and not e.keys:
             if hasattr(self.spec, 'new_dict'): return cont(st, self.spec.new_dict(self, st))
-            return cont(st, ('dict_empty',))
+            if not getattr(self.spec, 'memo_dicts', False): return cont(st, ('dict_empty',))
+            # a local dictionary keyed by objects (the `memo` of the clone functions): a mutable object, so its content lives in the
+            # per-path heap under its own keys
+            n = next(c._fresh)
+            st.heap['memo_k:%d' % n] = K(c.Ref, False); st.heap['memo_v:%d' % n] = K(c.Ref, c.null)
+            return cont(st, ('memo', n))
         if isinstance(e, ast.Set):
             return self.evs(st, e.elts, lambda s, vs: cont(s, ('constset', vs)))
         if isinstance(e, ast.JoinedStr):
@@ -435,6 +441,8 @@ class SE:
             if b[0] == 'constset':
                 if a[0] == 'key':
                     return fin(st, Or([a[1] == self.spec.key_const(self, x[1]) for x in b[1]]))
+            if b[0] == 'memo':
+                return fin(st, st.heap['memo_k:%d' % b[1]][self.memo_key(st, a)])
             if b[0] == 'tuple':
                 # x in (a, b, ...): some item equals x (== of the items, left to right)
                 items = list(b[1])
@@ -478,8 +486,18 @@ class SE:
             return cont(st, R(self.name_term(st, If(h['dk'][d][k], h['dv'][d][k], dflt[1]))))
         raise Unsupported('dict.%s on a heap dictionary' % name)
 
+    def memo_key(self, st, v):
+        """key of an object-keyed local dictionary: identity, for every class that does not redefine __eq__/__hash__ (OuterPin does)"""
+        if v[0] != 'ref': raise Unsupported('memo key of kind %s' % v[0])
+        s2 = st.fork(); s2.pc.append(self.ctx.isa(v[1], 'OuterPin'))
+        if self.sat(s2): raise Unsupported('an OuterPin as dictionary key (structural __eq__/__hash__)')
+        return v[1]
+
     def getitem(self, st, cv, i, cont):
         c = self.ctx
+        if cv[0] == 'memo':
+            k = self.memo_key(st, i)
+            return self.branch(st, st.heap['memo_k:%d' % cv[1]][k], lambda s: cont(s, R(s.heap['memo_v:%d' % cv[1]][k])), lambda s: self.exit(s, 'KeyError'))
         if cv[0] == 'pdict':
             k = self.to_key(st, i)
             return self.branch(st, cv[1][k], lambda s: cont(s, R(cv[2][k])), lambda s: self.exit(s, 'KeyError'))
@@ -867,6 +885,12 @@ class SE:
 
     def setitem(self, st, cv, i, v, nxt):
         c = self.ctx
+        if cv[0] == 'memo':
+            k = self.memo_key(st, i)
+            if v[0] != 'ref': raise Unsupported('memo value of kind %s' % v[0])
+            st.heap['memo_k:%d' % cv[1]] = Store(st.heap['memo_k:%d' % cv[1]], k, True)
+            st.heap['memo_v:%d' % cv[1]] = Store(st.heap['memo_v:%d' % cv[1]], k, v[1])
+            return nxt(st)
         if cv[0] == 'hdict':
             k = self.spec.dict_key(self, st, i); d = cv[1]; h = st.heap
             val = v[1] if v[0] in ('ref', 'hdict') else self.as_ref(st, v)
